@@ -481,6 +481,18 @@ def c18(res, tier, seed, lib):
             for b in range(0, 256, step):
                 texts.append("rgb(%d,%d,%d)" % (r, g, b))
     texts += ["rgba(255,0,0,0.5)", "hsl(123,45%,67%)", "rgba(0,255,255,0.99)"]
+    # every CSS name (reference: the table `cssNamed` of the Lean model, which the kernel compares with
+    # the code's table) parses, in any letter case, to its CSS value
+    css = _re.findall(r'\("([a-z]+)",\s*(\d+),\s*(\d+),\s*(\d+)\)', open(os.path.join(VERIF, "lean/Pastel/Model/Named.lean")).read().split("def cssNamed")[1].split("]")[0])
+    res.check(len(css) == 148, "reference-table-has-148-rows", "lean:cssNamed", "cssNamed", "%d rows" % len(css))
+    for variant in (str.lower, str.upper, str.title):
+        names = [variant(n) for (n, _, _, _) in css]
+        rc, out, err = run_cli(["format", "hex"] + names)
+        lines = out.decode().split("\n")[:-1]
+        res.check(rc == 0 and len(lines) == len(css), "every-css-name-parses", "cli:format-hex", variant.__name__, "rc=%s %d lines %r" % (rc, len(lines), err[-120:]))
+        for (n, r, g, b), nm, ln in zip(css, names, lines):
+            res.case("css " + nm)
+            res.check(ln == "#%02x%02x%02x" % (int(r), int(g), int(b)), "named-colour-has-css-value", "cli:format-hex", nm, "got %s, CSS %s" % (ln, "#%02x%02x%02x" % (int(r), int(g), int(b))))
     near = harness_query(["nearest " + hexs(t) for t in texts])
     inf = infos(texts)
     # run the binary in batches (colours as arguments)
@@ -870,6 +882,45 @@ def c19(res, tier, seed, lib):
         shutil.rmtree(d, ignore_errors=True)
 
 
+# ------------------------------------------------------------------------------------------ C20
+
+def c20(res, tier, seed, lib):
+    """`pastel colorblind <type> C`: the subcommand hands each type to the simulation of that type.
+    The printed line (hsl, one decimal) is compared with the model's simulation of the same type,
+    printed by the model's formatter (exact text), and - as a direct oracle - its 8-bit channels lie
+    within 4 steps (print rounding) of the reference evaluation for that type."""
+    rnd = random.Random(seed)
+    colors = ["ff0000", "00ff00", "0000ff", "ffff00", "ff00ff", "00ffff", "ff8000", "8000ff", "black", "white", "gray",
+              "rgba(200,30,90,0.4)", "hsl(123,45%,67%)", "rebeccapurple"]
+    colors += ["#%02x%02x%02x" % (rnd.randrange(256), rnd.randrange(256), rnd.randrange(256)) for _ in range(40 if tier != "thorough" else 600)]
+    inf = infos(colors)
+    for t in ("prot", "deuter", "trit"):
+        rc, out, err = run_cli(["colorblind", t] + colors)
+        lines = out.decode().split("\n")[:-1]
+        res.check(rc == 0 and len(lines) == len(colors), "exit-0", "cli:colorblind", t, "rc=%s %d lines %r" % (rc, len(lines), err[-120:]))
+        if len(lines) != len(colors):
+            continue
+        mo = model_batch(["adj cb:%s %s" % (t, i.wire) for i in inf])
+        fo = model_batch([("fmt hsl nosp " + " ".join(m.split(" ")[1:5])) if m.startswith("ok ") else "bad" for m in mo])
+        got = infos(lines)
+        for c, ln, m, f_, g in zip(colors, lines, mo, fo, got):
+            inp = "colorblind %s %s" % (t, c)
+            res.case(inp)
+            res.model_op()
+            want = unhex(f_.split(" ")[1]).decode() if f_.startswith("ok ") else "?"
+            if want != ln:
+                res.disagree(inp, ln, want)
+            if m.startswith("ok ") and g.ok:
+                ref = [int(x) for x in m.split(" ")[5:8]]
+                have = [(g.packed >> 16) & 255, (g.packed >> 8) & 255, g.packed & 255]
+                res.check(max(abs(a - b) for a, b in zip(ref, have)) <= 4, "cli-type-reaches-its-simulation", "cli:colorblind", inp,
+                          "printed %s = rgb%s, reference projection for %s gives rgb%s" % (ln, tuple(have), t, tuple(ref)))
+    for argv, want in [(["colorblind", "xyz", "red"], 2), (["colorblind"], 2), (["colorblind", "prot", "nocolor"], 1)]:
+        rc, out, err = run_cli(argv)
+        res.case(repr(argv))
+        res.check(rc == want, "argument-validation", "cli:colorblind", repr(argv), "rc=%s" % rc)
+
+
 # ------------------------------------------------------------------------------------------ C08
 
 def c08(res, tier, seed, lib):
@@ -1046,7 +1097,7 @@ def c14(res, tier, seed, lib):
         res.check(rc == want and out == b"", "distinct-validation", "cli:distinct", repr(argv), "rc=%s out=%r" % (rc, out[:60]))
 
 
-RUNNERS = {"C02": c02, "C06": c06, "C08": c08, "C13": c13, "C14": c14, "C16": c16, "C17": c17, "C18": c18, "C19": c19}
+RUNNERS = {"C20": c20, "C02": c02, "C06": c06, "C08": c08, "C13": c13, "C14": c14, "C16": c16, "C17": c17, "C18": c18, "C19": c19}
 
 
 def run(prop, tier, seed, lib):
